@@ -128,7 +128,7 @@ pub fn generate(scn: &dyn Scenario, rng: &mut Prng, tier: Tier) -> Spec {
     spec.generic = rng.chance(1, 4);
     spec.place = rng.below(4) as u8;
     if scn.id() != "C19" {
-        spec.thread = *rng.pick(&[0u8, 0, 0, 0, 0, 0, 1, 2]);
+        spec.thread = *rng.pick(&[0u8, 0, 0, 0, 0, 0, 1, 2, 3]);
     }
     if spec.kind == Some(crate::gens::Kind::Jitter) && matches!(scn.id(), "C05" | "C12" | "C14" | "C16" | "C17") && rng.chance(1, 10) {
         // real time flies while the code under test runs: 1 ms, 0.3 s, 1.5 s or an hour per clock reading
@@ -165,6 +165,18 @@ pub fn set_run_environment(spec: &Spec) {
     crate::gens::set_place(spec.place);
 }
 
+struct ExitHook(std::cell::RefCell<Option<Box<dyn FnOnce()>>>);
+impl Drop for ExitHook {
+    fn drop(&mut self) {
+        if let Some(f) = self.0.borrow_mut().take() {
+            f()
+        }
+    }
+}
+thread_local! {
+    static EXIT_HOOK: ExitHook = const { ExitHook(std::cell::RefCell::new(None)) };
+}
+
 pub fn execute_guarded(scn: &dyn Scenario, spec: &Spec, st: &mut Stats) -> RunEnd {
     RUN_SEQ.fetch_add(1, std::sync::atomic::Ordering::Relaxed);
     crate::gens::set_call_generic(spec.generic);
@@ -198,16 +210,59 @@ pub fn execute_guarded(scn: &dyn Scenario, spec: &Spec, st: &mut Stats) -> RunEn
         if spec.thread == 2 {
             b = b.name("application-worker".into());
         }
+        // thread == 3: the run is executed once on the fresh thread and then once more while that thread
+        // exits, from the destructor of a thread-local value that was registered before the code under
+        // test first ran there (so whatever per-thread state the code under test keeps is already gone).
+        // The second execution must end like the first.
+        let at_exit: std::sync::Arc<std::sync::Mutex<Option<RunEnd>>> = Default::default();
+        let exit_run = spec.thread == 3;
+        let slot = at_exit.clone();
         // (st is lent to the thread; if the system refuses a thread right now the run simply uses this one)
         let spawned = std::thread::scope(|sc| {
             let st_ref: &mut Stats = &mut *st;
-            match b.spawn_scoped(sc, move || body(st_ref)) {
+            let body = &body;
+            match b.spawn_scoped(sc, move || {
+                if exit_run {
+                    // the harness's own thread-locals first: they outlive the hook
+                    LAST_PANIC.with(|_| ());
+                    crate::gens::touch_thread_locals();
+                    // Safety: the thread (destructors included) is joined before `scn`, `spec` and
+                    // `body` go out of scope
+                    let again: Box<dyn FnOnce() + '_> = Box::new(move || {
+                        let mut st2 = Stats::default();
+                        let r2 = body(&mut st2);
+                        *slot.lock().unwrap() = Some(r2);
+                    });
+                    let again: Box<dyn FnOnce() + 'static> = unsafe { std::mem::transmute(again) };
+                    EXIT_HOOK.with(|h| *h.0.borrow_mut() = Some(again));
+                }
+                body(st_ref)
+            }) {
                 Ok(h) => Some(h.join().unwrap_or_else(|_| RunEnd::Discard("HARNESS_PANIC: run thread died".into()))),
                 Err(_) => None,
             }
         });
         match spawned {
-            Some(r) => r,
+            Some(r) => {
+                let second = at_exit.lock().unwrap().take();
+                match (r, second) {
+                    (RunEnd::Ok, Some(RunEnd::Violation(mut v))) => {
+                        st.count("probe:run_again_at_thread_exit");
+                        v.detail = format!("[second execution of the same run, from a thread-local destructor while the thread exits] {}", v.detail);
+                        RunEnd::Violation(v)
+                    }
+                    (RunEnd::Ok, Some(RunEnd::Discard(s))) if s.starts_with("SUT_PANIC") => {
+                        st.count("probe:run_again_at_thread_exit");
+                        RunEnd::Discard(s)
+                    }
+                    (r, second) => {
+                        if second.is_some() {
+                            st.count("probe:run_again_at_thread_exit");
+                        }
+                        r
+                    }
+                }
+            }
             None => body(st),
         }
     };
